@@ -272,6 +272,9 @@ struct Tracked : std::conditional<KIND == 0 || KIND == 6 || KIND == 8, DeclaresR
     if (!kNothrowCopyAssign) fault_point();
     bool ok = check_live("copy-assign(dest)");
     o.check_live("read(copy-assign source)");
+    // two objects at different addresses carrying the same identity: the source is the stale bitwise copy that a relocation left behind (its twin is the
+    // destination). A type that owns a resource would release, in this assignment, the very resource the source still refers to.
+    if (this != &o && serial == o.serial && g_monitor_depth == 0) violation("C02,C10", "ledger.assign_from_relocated_twin", fmt("%s object #%u copy-assigned from the bytes it was relocated from", kname(), serial));
     key = o.key;
     pay = o.pay;
     if (ok) {
